@@ -333,6 +333,62 @@ Definition popmany (to_pop : list Z) (a : list ainstr) (m : list Z) (s : sp) : r
       pop_each (map snd keyed) a m s
   end.
 
+(* ---- VenomCompiler.clean_stack_from_cfg_in (entry of a block with a single predecessor that is a splitter) ----
+   layout = liveness.out_vars(in_bb), inputs = liveness.input_vars_from(in_bb, bb); bound = the stack-height promise
+   inherited from an earlier elision; promise = StackCleanupSafety.stack_height_bound(bb, projected) (an oracle here).
+   A retained dead slot is the operand id 3 (_DeadStackItem). *)
+Definition dead_item : Z := 3.
+Definition is_dead (x : Z) : bool := x =? dead_item.
+Fixpoint dead_prefix_ok (m : list Z) (live_seen : bool) : bool :=
+  match m with
+  | [] => true
+  | x :: r => if is_dead x then (if live_seen then false else dead_prefix_ok r false) else dead_prefix_ok r true
+  end.
+Definition present (m : list Z) (x : Z) : bool := negb (opt_is_none (spec_get_depth m x)).
+Definition poke_dead (m : list Z) (vars : list Z) : res (list Z) :=
+  fold_left (fun acc v => match acc with
+                          | Err e => Err e
+                          | Ok mm => match spec_get_depth mm v with
+                                     | Some dp => Ok (st_poke mm dp dead_item)
+                                     | None => Err AssertFail end
+                          end) vars (Ok m).
+
+Definition clean_from_cfg_in (layout inputs : list Z) (bound promise : option Z)
+  (a : list ainstr) (m : list Z) (s : sp) : res (list ainstr * list Z * sp * option Z) :=
+  let to_pop := filter (fun v => negb (py_in v inputs)) layout in
+  if negb (dead_prefix_ok m false) then Err Raised else
+  let physical := filter (present m) to_pop in
+  match physical with
+  | [] => Ok (a, m, s, bound)
+  | _ =>
+    let live_depths := depths_of m (filter (present m) inputs) in
+    let deepest_live := fold_left Z.min live_depths 0 in
+    let retainable := filter (fun v => match live_depths with
+                                       | [] => true
+                                       | _ => match spec_get_depth m v with Some dp => dp <? deepest_live | None => false end
+                                       end) physical in
+    let pop_all := match popmany physical a m s with Ok (a', m', s') => Ok (a', m', s', bound) | Err e => Err e end in
+    match retainable with
+    | [] => pop_all
+    | _ =>
+      let to_cleanup := filter (fun v => negb (py_in v retainable)) physical in
+      let projected := zlen m - zlen to_cleanup in
+      match (match bound with Some b => Some b | None => promise end) with
+      | None => pop_all
+      | Some p =>
+        match popmany to_cleanup a m s with
+        | Err e => Err e
+        | Ok (a', m', s') =>
+          if negb (zlen m' =? projected) then Err AssertFail else
+          match poke_dead m' retainable with
+          | Err e => Err e
+          | Ok m'' => if dead_prefix_ok m'' false then Ok (a', m'', s', Some p) else Err Raised
+          end
+        end
+      end
+    end
+  end.
+
 (* ---- VenomCompiler._generate_evm_for_instruction for `invoke`, `ret` and plain one-to-one instructions ---- *)
 Definition optimistic_swap (equiv : Z -> Z -> bool) (next_term : bool) (live outs : list Z)
   (a : list ainstr) (m : list Z) (s : sp) : res (list ainstr * list Z * sp) :=
@@ -410,4 +466,4 @@ Definition enc_instr (i : ainstr) : list Z :=
   match i with APush v => [1; v] | AMstore => [2] | AMload => [3] | ASwap n => [4; n] | ADup n => [5; n] | APop => [6] | APushLabel x => [7; x]
   | AJump => [9] | ALabelDef => [8] | AOp c => [10; c] end.
 Definition err_code (e : err) : Z :=
-  match e with AssertFail => 1 | BadIndex => 2 | KeyErr => 3 | TypeErr => 4 | OutOfFuel => 5 | _ => 9 end.
+  match e with AssertFail => 1 | BadIndex => 2 | KeyErr => 3 | TypeErr => 4 | OutOfFuel => 5 | Raised => 6 | _ => 9 end.
